@@ -311,16 +311,16 @@ func (g *XG) Run(sc Scenario) *ScnResult {
 			// the marked operation: on any of its executions it may deliver the assumed result; from then on the
 			// exploration is in phase 1 (states that passed the marker with that result are kept apart from those
 			// that did not)
-			if v, ok := p.n.Instr.(ssa.Value); ok {
-				e1 := e.clone()
+			e1 := e.clone()
+			if v, ok := p.n.Instr.(ssa.Value); ok && !sc.MarkerResult.IsTop() {
 				e1[vkey{c: p.n.Ctx, v: v}] = sc.MarkerResult
-				p1 := pnode{p.n, 1, p.part}
-				for _, s := range it.feasible(p.n, e1) {
-					flow(p1, s.to, s.env)
-				}
-				res.edges[p] = appendUnique(res.edges[p], p1)
-				res.Reach[p1] = true
 			}
+			p1 := pnode{p.n, 1, p.part}
+			for _, s := range it.feasible(p.n, e1) {
+				flow(p1, s.to, s.env)
+			}
+			res.edges[p] = appendUnique(res.edges[p], p1)
+			res.Reach[p1] = true
 		}
 		for _, s := range it.feasible(p.n, e) {
 			flow(p, s.to, s.env)
@@ -357,6 +357,16 @@ func (r *ScnResult) ReachesAvoidingAfterMarker(target, avoid func(*Node) bool) *
 		}
 	}
 	return nil
+}
+
+// MarkerRepeats: the marked operation can be executed again after it has been executed once.
+func (r *ScnResult) MarkerRepeats() bool {
+	for p := range r.Reach {
+		if p.ph == 2 && p.n == r.marker {
+			return true
+		}
+	}
+	return false
 }
 
 // ReachesAfterMarker: some node satisfying pred is reachable after the marked operation delivered the assumed
